@@ -115,6 +115,11 @@ func (x *Extractor) Canon(e ast.Expr) string {
 			}
 		}
 	}
+	if pe, isParen := e.(*ast.ParenExpr); isParen {
+		if _, isBin := ast.Unparen(pe.X).(*ast.BinaryExpr); isBin {
+			return "(" + x.Canon(pe.X) + ")"
+		}
+	}
 	switch v := ast.Unparen(e).(type) {
 	case nil:
 		return ""
